@@ -397,6 +397,9 @@ CORPUS = [
     # calls in while / if / elif conditions, and / or operands, conditional-expression arms, f-string fields
     "def show(a):\n    mon.write(a)\n    return a * 2\ni0 = 3\ni0 = show(i0) if i0 > 2 else show(0)\nif show(8) > 3 and show(9) > 100 and show(10) > 0:\n    mon.write(\"no\")\n"
     "if show(11) > 300 or show(12) > 3:\n    mon.write(\"yes\")\nelif show(13) > 0:\n    mon.write(\"never\")\nw = 0\nwhile show(w) < 5:\n    w = w + 1\nmon.write(f\"v={show(4)}!\")\nmon.write(-show(14))\nshow(7)\n",
+    # one helper, two call signatures (int and float variants), early return
+    "def scale(a):\n    if a > 100:\n        return a - 100\n    return a * 2\nf0 = 2.5\ny = scale(f0)\nx = scale(3)\nmon.write(y)\nmon.write(x)\n"
+    "while True:\n    x = scale(x) - 1\n    y = scale(y) + 0.25\n    mon.write(x)\n    mon.write(y)\n",
     # float-only and bool-only helpers
     "def half(a):\n    if a > 4:\n        return a * 0.25\n    return a * 0.5\ndef neg(a):\n    if a == 0:\n        return False\n    return a < 0\nmon.write(half(3))\nmon.write(half(10) + 1.5)\n"
     "mon.write(neg(3))\nmon.write(neg(-3))\nb = neg(-1)\nif neg(-4) and b:\n    mon.write(\"both\")\nmon.write(neg(-2) + 5)\n",
